@@ -158,6 +158,11 @@ def run(ctx):
   ok = any(isinstance(n, ast.If) and u(n.test) == 'spec is None' and isinstance(n.body[-1], ast.Raise) for n in walk_local(pp.node))
   ctx.check(ok and 'ValueError' in caught, 'C14.total-predicate', construct(pp), 'an unknown package is reported as "not found" (ValueError, caught by the predicate)',
             'an unknown package is no longer turned into "file does not exist"', pp.loc(), instance='spec-none')
+  imp = bool(caught & {'ImportError', 'Exception'})
+  ctx.check(imp, 'C14.total-predicate', construct(ex), 'importlib failures (ImportError, e.g. for a name derived from an absolute path) mean "does not exist here"',
+            'the existence predicate catches only %s: importlib.util.find_spec raises a plain ImportError for package names derived from absolute paths '
+            '(leading dot), which now aborts the whole search instead of trying the next location / raising the IOError naming the locations' % sorted(caught),
+            ex.loc(), instance='catches-importerror')
   rr = ctx.ix.module('resource_reader')
   regs = [n for n in ast.walk(rr.tree) if isinstance(n, ast.Call) and u(n.func) == 'config.register_file_reader']
   ctx.check(bool(regs) and [u(a) for a in regs[0].args] == ['system_path_reader', 'system_path_file_exists'], 'C14.ordered-stores', 'gin/resource_reader.py',
